@@ -169,11 +169,20 @@ impl PriceLevel {
     ) -> MatchResult {
         let mut result = MatchResult::new(taker_order_id, incoming_quantity);
         let mut remaining = incoming_quantity;
+        // Orders that display nothing and have nothing to replenish with cannot trade in this
+        // call; they are kept out of the queue until it returns, otherwise the loop would pop
+        // and re-queue them forever.
+        let mut set_aside: Vec<Arc<OrderType<()>>> = Vec::new();
 
         while remaining > 0 {
             if let Some(order_arc) = self.orders.pop() {
                 let (consumed, updated_order, hidden_reduced, new_remaining) =
                     order_arc.match_against(remaining);
+
+                if consumed == 0 && hidden_reduced == 0 && updated_order.is_some() {
+                    set_aside.push(order_arc);
+                    continue;
+                }
 
                 if consumed > 0 {
                     // Update visible quantity counter
@@ -217,7 +226,11 @@ impl PriceLevel {
                         // replenished from hidden quantity: joins at the back
                         self.orders.push(Arc::new(updated));
                     } else {
-                        // partially filled: keeps its time priority
+                        // partially filled: keeps its time priority, behind the orders that
+                        // were set aside before it was reached
+                        for order in set_aside.drain(..) {
+                            self.orders.push_front(order);
+                        }
                         self.orders.push_front(Arc::new(updated));
                     }
                 } else {
@@ -249,6 +262,10 @@ impl PriceLevel {
             } else {
                 break;
             }
+        }
+
+        for order in set_aside {
+            self.orders.push_front(order);
         }
 
         result.remaining_quantity = remaining;
